@@ -239,6 +239,25 @@ theorem activeRound_reachable {d : DState} {c : CfgId} {s s' : State} (h : Reach
     · simp at hs; subst hs; exact h
   · simp at hs
 
+theorem closeStreamsFrom_reachable {d : DState} {c : CfgId} {s : State} (r n : Nat) (h : Reachable s) :
+    Reachable (closeStreamsFrom d c s r n) := by
+  induction n generalizing s r with
+  | zero => exact h
+  | succ n ih =>
+    simp only [closeStreamsFrom]
+    split
+    · split
+      next s1 h1 =>
+        have hr1 := endAttempt_reachable h h1
+        split
+        next s2 h2 => exact ih _ (endIteration_reachable hr1 h2)
+        next => exact ih _ hr1
+      next => exact ih _ h
+    · exact ih _ h
+
+theorem afterUnload_reachable {d : DState} {c : CfgId} {s : State} (h : Reachable s) :
+    Reachable (afterUnload d c s).s := closeStreamsFrom_reachable 0 _ h
+
 theorem loadCore_reachable {d : DState} {ks : List Key} {p : Params} {fb : List Key} {x : DState × String}
     (h : Reachable d.s) (hs : loadCore d ks p fb = some x) : Reachable x.1.s := by
   simp only [loadCore] at hs
@@ -273,9 +292,13 @@ theorem sstep_reachable {d d' : DState} {st : SStep} {ev : String} (h : Reachabl
     · simp at hs
     next x hx =>
       have hrx := loadCore_reachable h hx
+      have hry : Reachable (match replaced d with | some old => afterUnload x.1 old x.1.s | none => x.1).s := by
+        split
+        · exact afterUnload_reachable hrx
+        · exact hrx
       split at hs
       · simp at hs
-      next s' h' => simp at hs; obtain ⟨hd, _⟩ := hs; subst hd; exact activeRound_reachable hrx h'
+      next s' h' => simp at hs; obtain ⟨hd, _⟩ := hs; subst hd; exact activeRound_reachable hry h'
   | health k ok =>
     simp only [sstep] at hs
     split at hs
@@ -310,7 +333,7 @@ theorem sstep_reachable {d d' : DState} {st : SStep} {ev : String} (h : Reachabl
     next c =>
       split at hs
       · simp at hs
-      next s1 h1 => simp at hs; obtain ⟨hd, _⟩ := hs; subst hd; exact unload_reachable h h1
+      next s1 h1 => simp at hs; obtain ⟨hd, _⟩ := hs; subst hd; exact afterUnload_reachable (unload_reachable h h1)
   | newReq get =>
     simp only [sstep] at hs
     split at hs
